@@ -269,11 +269,28 @@ func VerifInstallReadCipher(c *Conn, id uint16, key, iv, macKey []byte) {
 	c.in.cipher, c.in.mac = v.hc.cipher, v.hc.mac
 }
 
-// VerifWriteRecord seals data as record(s) of an arbitrary content type with the connection's
-// current write protection and sends them (a peer that completed the handshake and then
-// misbehaves).
+// VerifWriteRecord seals data (possibly empty, at most maxPlaintext bytes) as ONE record of an
+// arbitrary content type with the connection's current write protection and sends it (a peer
+// that completed the handshake and then misbehaves). It follows writeRecordLocked.
 func VerifWriteRecord(c *Conn, typ byte, data []byte) (int, error) {
 	c.out.Lock()
 	defer c.out.Unlock()
-	return c.writeRecordLocked(recordType(typ), data)
+	vers := c.vers
+	if vers == 0 {
+		vers = VersionTLCP
+	}
+	m := len(data)
+	outBuf := []byte{typ, byte(vers >> 8), byte(vers), byte(m >> 8), byte(m)}
+	outBuf, err := c.out.encrypt(outBuf, data, c.config.rand())
+	if err != nil {
+		return 0, err
+	}
+	return c.write(outBuf)
+}
+
+// VerifPrepareReadCipher prepares the next read protection of a raw connection as
+// establishKeys does, so that a ChangeCipherSpec can be accepted.
+func VerifPrepareReadCipher(c *Conn, id uint16, key, iv, macKey []byte) {
+	v := VerifNewHalfConn(id, key, iv, macKey, true)
+	c.in.prepareCipherSpec(VersionTLCP, v.hc.cipher, v.hc.mac)
 }
